@@ -2159,6 +2159,15 @@ func (c *Conn) handleRecordContent(
 ) (bool, packetOutcome, error) {
 	switch content := content.(type) {
 	case *protocol.ACK:
+		if prepared.header.Epoch == 0 {
+			// An ACK is only acted on when it arrives in a protected record:
+			// anyone can send an epoch-0 record, and acknowledging record
+			// numbers on the peer's behalf would complete flights (KeyUpdate)
+			// that the peer never received.
+			c.log.Debug("discarded ACK in unprotected record")
+
+			return false, packetOutcome{}, nil
+		}
 		isLatestSeqNum := prepared.markPacketAsValid()
 
 		return isLatestSeqNum, packetOutcome{
